@@ -102,7 +102,7 @@ end PwVerif.LoopK
 '''
 
 EARLY = '''import PwVerif.Lemmas.Loop@KIND@
-import PwVerif.Props.C05Generated
+import PwVerif.Props.C05Generated@CHAIN@
 /-!
 (written by `tools/gen_loopk.py` from one template; part @I@ of @N@ of the landing points before the loop)
 
@@ -320,7 +320,7 @@ KINDS = [
     ('pprocess', 'Process', 'pprocessRun', 'a = .raiseWte false ∨ a = .kill ∨ a = .raiseWte true', 'rfl | rfl | rfl', 'st.ctrlAlive = true',
      '`terminate()` delivered by either mechanism, or a kill', 2, True),
     ('premote', 'Remote', 'premoteRun', 'a = .raiseWte false ∨ a = .kill ∨ a = .raiseWte true', 'rfl | rfl | rfl', 'st.ctrlAlive = true',
-     '`terminate()` delivered by either mechanism, or a kill', 6, False),
+     '`terminate()` delivered by either mechanism, or a kill', 12, False),
 ]
 for k, kind, run, cov, rc, extra, ev, nch, tree in KINDS:
     def fill(t, **kw):
@@ -331,7 +331,8 @@ for k, kind, run, cov, rc, extra, ev, nch, tree in KINDS:
         return t
     (L / f'Loop{kind}.lean').write_text(fill(LOOP))
     for i in range(nch):
-        (L / f'Early{kind}{i}.lean').write_text(fill(EARLY, I=str(i)))
+        # at most six of these files are built at a time (memory: several GB each): file i waits for file i - 6
+        (L / f'Early{kind}{i}.lean').write_text(fill(EARLY, I=str(i), CHAIN=(f'\nimport PwVerif.Lemmas.Early{kind}{i - 6}' if i >= 6 else '')))
     imports = '\n'.join(f'import PwVerif.Lemmas.Early{kind}{i}' for i in range(nch))
     asyncs = ['.raiseWte false', '.kill', '.raiseWte true'][:len(rc.split('|'))]
     if tree:
